@@ -363,3 +363,53 @@ func TestVerifC01InnerEIDs(t *testing.T) {
 		vfAcceptedOracle(c, raw, b)
 	})
 }
+
+// ---- the routing-specific block types while they are NOT registered (a node running another
+// routing algorithm): they must round-trip as generic blocks ----
+
+func TestVerifC01Unregistered(t *testing.T) {
+	// this unit runs in a process of its own; nothing else registers the types here
+	m := GetExtensionBlockManager()
+	for _, eb := range []ExtensionBlock{NewBinarySprayBlock(0), NewDTLSRBlock(DTLSRPeerData{}), NewProphetBlock(nil), &SignatureBlock{}} {
+		m.Unregister(eb)
+	}
+	u := vk.Unit{Property: "C01", Name: "c01.unregistered", Quick: 2500, Thorough: 100000,
+		Rule: "valid bundle descriptions as c01.valid (payload <= 70000) encoded by the independent encoder while the binary-spray, DTLSR, PRoPHET and signature block types are not registered with the extension block manager (a node configured for another routing algorithm); oracle: the parser accepts, the blocks come back as generic blocks, the re-serialisation is byte-identical to the input, and the accepted-input oracle (ID, blocks, payload last, fixed point) holds; non-trivial = the bundle carries at least one of the four unregistered types; distinct by case hash"}
+	vk.Check(t, u, func(t *rapid.T) c01Case {
+		return c01Case{Registered: false, Spec: vk.GenBundle(vk.GenOpts{MaxPayload: 70000, MaxExt: 5}).Draw(t, "bundle")}
+	}, func(c *vk.Ctx, cs c01Case) {
+		s := &cs.Spec
+		c01Classes(c, s)
+		custom := 0
+		for i := range s.Blocks {
+			if s.Blocks[i].Type >= 192 && s.Blocks[i].Type <= 195 {
+				custom++
+			}
+		}
+		if custom > 0 {
+			c.NonTrivial()
+		}
+		x := s.Encode(vfNowDtn())
+		b, err := vfParse(x)
+		if err != nil {
+			c.Failf("c01.valid-rejected", "parser rejects a valid bundle whose routing blocks are not registered: %v", err)
+		}
+		for i := range b.CanonicalBlocks {
+			cb := &b.CanonicalBlocks[i]
+			if tc := cb.TypeCode(); tc >= 192 && tc <= 195 {
+				if _, ok := cb.Value.(*GenericExtensionBlock); !ok {
+					c.Failf("c01.harness", "block type %d is still registered (%T)", tc, cb.Value)
+				}
+			}
+		}
+		y, err := vfWrite(&b)
+		if err != nil {
+			c.Failf("c01.accepted-not-reserialisable", "accepted input cannot be re-serialised: %v", err)
+		}
+		if !bytes.Equal(x, y) {
+			d := firstDiff(x, y)
+			c.Failf("c01.reserialise-differs", "re-serialisation of a canonical input with generic blocks differs at offset %d: got …%x want …%x", d, vfTrunc(y[d:]), vfTrunc(x[d:]))
+		}
+		vfAcceptedOracle(c, x, b)
+	})
+}
